@@ -37,6 +37,10 @@ pub struct ThreadCase {
     /// readers release capacity in lumps of this many bytes (0 = at once)
     pub release_lump: usize,
     pub reserve: bool,
+    /// each producer ends with a follow-up request whose http::Request extensions own the last reference to the
+    /// send handle of its first stream (dropped somewhere inside send_request)
+    #[serde(default)]
+    pub ext_handles: bool,
 }
 
 struct Parker {
@@ -144,7 +148,9 @@ impl Engine for ThreadEngine {
             clones: *t.pick(&[0usize, 100, 2000]),
             release_lump: *t.pick(&[0usize, 0, 5000, 40000]),
             reserve: t.bool(),
+            ext_handles: false,
         };
+        c.ext_handles = t.chance(1, 3);
         // a reader that sits on more than the windows can carry would stall the exchange by itself
         let w = c.window.unwrap_or(65535) as usize;
         let cw = c.conn_window.unwrap_or(65535) as usize;
@@ -334,6 +340,19 @@ impl Engine for ThreadEngine {
                 }
                 // the response (head only)
                 let _ = block_on(resp);
+                if c2.ext_handles {
+                    // a follow-up request carrying the first stream's handle in its extensions: the library
+                    // drops it (the handle's destructor takes the library's lock)
+                    let holder = Arc::new(Mutex::new(Some(st)));
+                    let mut req2 = http::Request::builder().method("GET").uri("https://example.com/follow-up").body(()).unwrap();
+                    req2.extensions_mut().insert(holder);
+                    if block_on(std::future::poll_fn(|cx| sr2.poll_ready(cx))).is_ok() {
+                        if let Ok((resp2, _)) = sr2.send_request(req2, true) {
+                            sh.progress.fetch_add(1, Ordering::Relaxed);
+                            let _ = block_on(resp2);
+                        }
+                    }
+                }
             });
         }
         if let (Some(mut pp), true) = (pp, c.pings > 0) {
@@ -426,6 +445,9 @@ impl Engine for ThreadEngine {
         }
         if c.reset_after.iter().any(|x| *x > 0) {
             out.label("with-reset");
+        }
+        if c.ext_handles {
+            out.label("handle-in-request-extensions");
         }
         out.nontrivial = c.producers + (c.pings > 0) as usize + (c.clones > 0) as usize >= 2;
         if let Some(v) = verdict {
